@@ -42,9 +42,9 @@ type acctCfg struct {
 }
 
 func acctCfgs(thorough bool) []acctCfg {
-	cfgs := []acctCfg{{"F0", 0}, {"F1", 1}, {"F10", 10}, {"F11", 11}, {"F5000", 5000}, {"F5001", 5001}}
+	cfgs := []acctCfg{{"F0", 0}, {"F1", 1}, {"F10", 10}, {"F11", 11}, {"F25", 25}, {"F5000", 5000}, {"F5001", 5001}}
 	if thorough {
-		cfgs = append(cfgs, acctCfg{"F25", 25}, acctCfg{"F541", 541}, acctCfg{"F4999", 4999})
+		cfgs = append(cfgs, acctCfg{"F541", 541}, acctCfg{"F4999", 4999})
 	}
 	return cfgs
 }
@@ -118,25 +118,24 @@ func init() {
 
 // proof-of-work options of a candidate
 const (
-	powNone        = iota // difficulty 0
-	pow1                  // difficulty 1500 (1 plasma), valid nonce
-	pow4                  // difficulty 6000 (4 plasma), valid nonce
-	pow3                  // difficulty 5999 (3 plasma), valid nonce
-	pow4Bad               // difficulty 6000, least nonce that does NOT meet it
-	pow63Bad              // difficulty 2^63, least nonce that does NOT meet it
-	powFull               // difficulty W*1500 for a large W (512 or a whole base block, 21000), valid nonce; only in "heavy" items
-	powFullLess           // difficulty W*1500 − 1 (W−1 plasma), same nonce
-	powFullBad            // difficulty W*1500, least nonce that does not meet it
-	powMaxBad             // difficulty 2^64−1, least nonce that does NOT meet it
+	powNone     = iota // difficulty 0
+	pow1               // difficulty 1500 (1 plasma), valid nonce
+	pow4               // difficulty 6000 (4 plasma), valid nonce
+	pow3               // difficulty 5999 (3 plasma), valid nonce
+	pow4Bad            // difficulty 6000, least nonce that does NOT meet it
+	pow63Bad           // difficulty 2^63, least nonce that does NOT meet it
+	powFull            // difficulty W*1500 for a large W (512 or a whole base block, 21000), valid nonce; only in "heavy" items
+	powFullLess        // difficulty W*1500 − 1 (W−1 plasma), same nonce
+	powFullBad         // difficulty W*1500, least nonce that does not meet it
+	powMaxBad          // difficulty 2^64−1, least nonce that does NOT meet it
 	nPowOptions
 )
 
 var powNames = []string{"none", "d1500", "d6000", "d5999", "d6000/badnonce", "d2^63/badnonce", "dW*1500", "dW*1500-1", "dW*1500/badnonce", "d2^64-1/badnonce"}
 
-
 type cand struct {
 	K int    `json:"k"`
-	F uint64 `json:"f"`
+	F uint64 `json:"f,string"` // as a string: results travel through float64 JSON numbers otherwise
 	P int    `json:"p"`
 }
 
@@ -225,6 +224,8 @@ const nReceivable = 6
 func ownGlobals() {
 	// lets "small" fusions (1 QSR = 2100 plasma, a tenth of a base block) exist; mainnet's minimum is 10 QSR
 	constants.FuseMinAmount = big.NewInt(1 * refUnitCost)
+	// lets a fusion be cancelled two momentums after it was made (mainnet: 10 hours); used by stale.go only
+	constants.FuseExpiration = 2
 }
 
 func newEnv(c *xs.Ctx, cfg acctCfg) *env {
@@ -278,6 +279,15 @@ func (e *env) clean(st *mstate) {
 	if st.Prev.Height == 0 && e.n.Chain.GetFrontierAccountStore(e.addr).Identifier().Height != 0 {
 		e.reset()
 	}
+}
+
+// availRef is the reference model's available plasma: plasma of the fused QSR minus what the unconfirmed blocks took
+// (0 if the implementation already let the account overspend, which is reported where it happens).
+func (e *env) availRef(st *mstate) uint64 {
+	if st.used() > e.plasma {
+		return 0
+	}
+	return e.plasma - st.used()
 }
 
 func (e *env) refreshAck() {
@@ -430,6 +440,9 @@ func fusedDomain(base, avail, heavyW uint64, rich bool) []uint64 {
 		for _, v := range []int64{1, a - 1, refBlockCap - 1} {
 			add(v)
 		}
+		// amounts whose sum with the PoW plasma wraps around 64 bits
+		set[^uint64(0)] = true
+		set[^uint64(0)-3] = true
 	}
 	if heavyW > 0 {
 		add(b - int64(heavyW))
@@ -466,11 +479,11 @@ type explorer struct {
 }
 
 type acctReplay struct {
-	Part string  `json:"part"`
-	Cfg  acctCfg `json:"cfg"`
-	Path []step  `json:"path"`
-	Cand *cand   `json:"cand,omitempty"`
-	Heavy uint64 `json:"heavy,omitempty"`
+	Part  string  `json:"part"`
+	Cfg   acctCfg `json:"cfg"`
+	Path  []step  `json:"path"`
+	Cand  *cand   `json:"cand,omitempty"`
+	Heavy uint64  `json:"heavy,omitempty"`
 }
 
 func (x *explorer) violate(key, what string, path []step, cd *cand, full uint64) {
@@ -491,7 +504,7 @@ func (x *explorer) judge(e *env, st *mstate, path []step, cd cand, b *nom.Accoun
 		powPlasma = refPowPlasma(d)
 	}
 	total := new(big.Int).Add(new(big.Int).SetUint64(cd.F), new(big.Int).SetUint64(powPlasma))
-	avail := e.plasma - st.used()
+	avail := e.availRef(st)
 	okBase := total.Cmp(new(big.Int).SetUint64(k.Base)) >= 0
 	okAvail := cd.F <= avail
 	okCap := total.Cmp(big.NewInt(refBlockCap)) <= 0
@@ -542,7 +555,7 @@ func (x *explorer) judge(e *env, st *mstate, path []step, cd cand, b *nom.Accoun
 
 func (x *explorer) candidates(e *env, st *mstate, pset []int, heavyW uint64, rich bool) []cand {
 	var out []cand
-	avail := e.plasma - st.used()
+	avail := e.availRef(st)
 	for _, ki := range x.kinds {
 		if kinds[ki].Class == "recv" && st.RecvUsed >= len(e.pending) {
 			continue
@@ -655,7 +668,7 @@ func (x *explorer) evaluate(e *env, st *mstate, path []step, depthLeft int, pset
 		pset = basicPow
 	}
 	cands := x.candidates(e, st, pset, full, rich)
-	avail := e.plasma - st.used()
+	avail := e.availRef(st)
 	plusOne := x.extPlusOne
 	if extOnly {
 		var ext []cand
@@ -699,7 +712,8 @@ func (x *explorer) evaluate(e *env, st *mstate, path []step, depthLeft int, pset
 		}
 	}
 	r.Count("acct_states_expanded", 1)
-	r.Count(fmt.Sprintf("acct_states_expanded:%s:blocks=%d:m=%d", x.cfg.Name, st.Blocks, st.MUsed), 1)
+	r.Count(fmt.Sprintf("acct_states_expanded:%s", x.cfg.Name), 1)
+	r.Count(fmt.Sprintf("acct_states_expanded:blocks=%d,momentums=%d", st.Blocks, st.MUsed), 1)
 	r.Count(fmt.Sprintf("acct_candidates:%s", x.cfg.Name), int64(len(cands)))
 	skey := fmt.Sprintf("%s|%s", x.cfg.Name, stateKey(st, depthLeft))
 	if full > 0 {
